@@ -15,6 +15,7 @@
 -/
 import Influx.Lemmas.EngineC02
 import Influx.Lemmas.EngineWal
+import Influx.Lemmas.EngineSrc
 
 namespace Influx.Props.C02
 open Influx.Model.Engine Influx.Spec.C03 Influx.Spec.C02
@@ -57,6 +58,50 @@ theorem C02_compaction_crash {s : State} (h : Good s) (i j : Nat) (pt : CPoint) 
 /-- the reopened shard satisfies the engine invariants again: further operations are covered -/
 theorem C02_reopen_good {s : State} (h : Good s) (tear : Bool) : Good (step s (.crash tear)).1 :=
   good_stepCrash h.wal tear
+
+/-! ### nothing that was never written appears — unconditionally -/
+
+/-- every point of every write operation of a history (acknowledged or torn by a crash) -/
+def allWrites : List Op → Log
+  | [] => []
+  | .write es :: ops => es ++ allWrites ops
+  | _ :: ops => allWrites ops
+
+theorem allWrites_cons (op : Op) (ops : List Op) :
+    allWrites (op :: ops) = (match op with | .write es => es | _ => []) ++ allWrites ops := by
+  cases op <;> simp [allWrites]
+
+theorem rows_from_writes (ops : List Op) : ∀ (s : State) (W : Log), Src s W →
+    ∀ k lo hi asc r, (Op.read k lo hi asc, Obs.rows r) ∈ (runFrom s ops).2 →
+    ∀ p ∈ r, (⟨k, p.1, p.2⟩ : Entry) ∈ W ++ allWrites ops := by
+  induction ops with
+  | nil => intro s W _ k lo hi asc r h; simp [runFrom] at h
+  | cons op ops ih =>
+    intro s W hs k lo hi asc r h p hp
+    simp only [runFrom, List.mem_cons] at h
+    rw [allWrites_cons, ← List.append_assoc]
+    rcases h with h | h
+    · -- this very read
+      have hop : op = .read k lo hi asc := (Prod.mk.inj h).1.symm
+      subst hop
+      have hr : r = s.read k lo hi asc := by
+        have := (Prod.mk.inj h).2
+        simp only [step, Obs.rows.injEq] at this
+        exact this
+      subst hr
+      exact List.mem_append.mpr (Or.inl (List.mem_append.mpr (Or.inl (hs _ (read_row_stored s k lo hi asc p hp)))))
+    · exact ih _ _ (src_step hs op) k lo hi asc r h p hp
+
+/-- **Nothing that was never written appears** — for EVERY history of the model (no hypothesis:
+    also F1/F18 histories, torn WAL tails, crashes inside commits, non-contiguous compactions):
+    every row any read ever returns carries a value that some write operation of the history
+    wrote to that series/field/timestamp. -/
+theorem C02_no_phantom (ops : List Op) (k : Key) (lo hi : Int) (asc : Bool) (r : List Pt)
+    (h : (Op.read k lo hi asc, Obs.rows r) ∈ trace ops) (p : Pt) (hp : p ∈ r) :
+    (⟨k, p.1, p.2⟩ : Entry) ∈ allWrites ops := by
+  have := rows_from_writes ops init [] (fun e he => by simp [State.entries, init, filesData, walEntries, segRecs, State.wal] at he)
+    k lo hi asc r h p hp
+  simpa using this
 
 /-! ### the statement checker accepts the model -/
 
